@@ -27,7 +27,7 @@ TECHNIQUE = "Coq proof (div/mod index arithmetic, phase powers, 3-D lift through
 
 
 def gen_case(rng, quick, i):
-    shape = [rng.randint(2, 3), rng.randint(2, 3), rng.randint(2, 3)]
+    shape = [rng.choice([1, 2, 2, 3]), rng.choice([1, 2, 3]), rng.choice([1, 2, 3])]      # incl. one-cell (collapsed) axes
     bt, kvec, reps = {}, [0.0, 0.0, 0.0], [1, 1, 1]
     for a, ax in enumerate("xyz"):
         kind = rng.choice(["periodic", "bloch", "wall"]) if a else rng.choice(["periodic", "bloch"])
@@ -62,8 +62,16 @@ def seam_case():
             "edges": [[0.0, u, 3 * u], [0.0, u, 2 * u], [0.0, u, 2 * u]], "seam": True}
 
 
+def thin_cases():
+    """one-cell-thick Bloch axes with a non-zero wave-vector component (the collapsed-axis idiom for 2-D runs)"""
+    def bt(bloch_axes):
+        return {f"{s_}_{a}": ("bloch" if a in bloch_axes else "periodic") for s_ in ("min", "max") for a in "xyz"}
+    return [{"shape": [1, 2, 3], "bt": bt("x"), "ncomp": 3, "seed": 11, "steps": 2, "back": 0, "tile": [3, 1, 1], "kvec": [3.0e6, 0.0, 0.0]},
+            {"shape": [3, 2, 1], "bt": bt("xz"), "ncomp": 1, "seed": 12, "steps": 2, "back": 0, "tile": [1, 1, 2], "kvec": [1.0e6, 0.0, -2.5e6]}]
+
+
 def gen_cases(ctx):
-    return [seam_case()] + [gen_case(ctx.rng, ctx.quick, i) for i in range(ctx.pick(5, 30))]
+    return [seam_case()] + thin_cases() + [gen_case(ctx.rng, ctx.quick, i) for i in range(ctx.pick(5, 30))]
 
 
 def run_cases(ctx, cases):
